@@ -265,6 +265,14 @@ func (m msgServer) UpdateParams(
 	}
 
 	ctx := sdk.UnwrapSDKContext(goCtx)
+	// the issue fee is charged in an issued token (genesis import asserts the same)
+	if !m.k.HasSymbol(ctx, msg.Params.IssueTokenBaseFee.Denom) {
+		return nil, errorsmod.Wrapf(
+			types.ErrTokenNotExists,
+			"issue token base fee denom %s",
+			msg.Params.IssueTokenBaseFee.Denom,
+		)
+	}
 	if err := m.k.SetParams(ctx, msg.Params); err != nil {
 		return nil, err
 	}
